@@ -13,7 +13,7 @@ round-trip (each rule names its witness in DESIGN §4 C01):
   exactly-consumed framing: TE/TR (entry frame = declared size, padding follows), BR/BW (bounded wrappers count exactly)
 """
 from .. import facts, report, ilrules, rwrules, encrules, tablerules
-from . import c16
+from . import c16, c17
 
 
 def rules(chk, db):
@@ -33,9 +33,11 @@ def rules(chk, db):
     ilrules.prefix_minimal(chk, db, 'PM')
     ilrules.match_sets(chk, db, 'MS')
     ilrules.float_bool(chk, db, 'FB')
-    encrules.write_rules(chk, db, want=('LEN', 'ELT'))
-    encrules.read_rules(chk, db, want=('LEN', 'ELT'))
+    encrules.write_rules(chk, db, want=('LEN', 'ELT', 'GRD'))
+    encrules.read_rules(chk, db, want=('LEN', 'ELT', 'GRD'))
     encrules.narrowing(chk, db, 'NR', {'ReadPayload', 'Read', 'WritePayload', 'Write'})
+    chk.rule('CO', 'wrapper encoders are composed of exactly the documented component encodings', minimum=30)
+    encrules.composition(chk, db, 'CO', ('WritePayload', 'ReadPayload', 'Prefix', 'Match'))
     w = chk.extra.get('struct_member_order_w', {})
     r = chk.extra.get('struct_member_order_r', {})
     for t in sorted(set(w) & set(r)):      # types that are both written and read somewhere in the analysed units
@@ -49,6 +51,8 @@ def rules(chk, db):
     rwrules.check_fd_class(chk, db, 'nop::FdReader', 'reader', 'FDS')
     rwrules.check_fd_class(chk, db, 'nop::FdWriter', 'writer', 'FDS')
     c16.rules(chk, db, prefix='B.')
+    chk.rule('L', 'ConstexprBufferWriter::WriteElement stores little-endian byte lanes at index_ + offset', minimum=8)
+    c17.lanes(chk, db, 'L')
     tablerules.rules(chk, db, {'TW', 'TE', 'TR', 'TL', 'TD', 'TS'})
 
 
